@@ -181,12 +181,14 @@ WIDEN = 2
 
 
 CLAIMED = True
-LEVEL_TEXT = ("Theorems: for every circuit, every feedback set F whose cut is acyclic and collision-free generated names, the closed form of the "
-              "result has the same outputs, inputs = inputs + one c0_aux_in_f per f in F, and every consistent valuation of it that agrees with a "
-              "stable state v on the inputs and carries v f on the aux inputs shows v on all outputs (induction over the chained copies); removing "
-              "the back edges of ANY node order that lie on a cycle leaves an acyclic graph (so approx_min_fas never fails without self loops). "
-              "That the API-level model equals the closed form, lint-cleanliness and acyclicity of the result are decided per case.")
-LEVEL_NOTE = ("Trusted: Coq kernel + vm_compute, std++, harness. The greedy ordering heuristic is not modelled (any order is correct, proved); the "
-              "feedback set is read back from the result. Model = closed form = implementation is a per-case vm_compute decision, not a theorem "
-              "(acyclic_unroll_closed_form_full stays a visible Prop). Guard: generated names (c<i>_*, aux_in_*) do not collide with node names.")
+LEVEL_TEXT = ("Theorem C18_acyclic_unroll (about the API-level model, no per-case residue): for every lint-clean blackbox-free circuit "
+              "without self loops and every feedback set with an acyclic cut, the model of tx.acyclic_unroll RETURNS an acyclic, lint-clean "
+              "circuit with the same outputs, inputs = inputs + one c0_aux_in_f per feedback node, in which every consistent valuation that "
+              "agrees with a stable state on the inputs and carries its values on the aux inputs shows it on all outputs. Proved via: model = "
+              "closed form (graph equality through add/connect/set_type/add_subcircuit step lemmas), totality of every API call, completeness "
+              "of the acyclicity test, lint rule check of the closed form. The code's feedback choice is legal for ANY node order (proved).")
+LEVEL_NOTE = ("Trusted: Coq kernel + vm_compute, std++, harness; the model is tied to the Python code by correspondence (returned graph = model "
+              "= closed form, on every generated case and hash seed). The greedy ordering heuristic is not modelled (any order is correct, "
+              "proved); the feedback set is read back from the result. Guards: no bb-typed nodes, no empty/digit-leading names, no x "
+              "constants, generated names (c<i>_*, aux_in_*) do not collide with node names.")
 TECHNIQUE = "Coq proof (closed form semantics, order-independent cut) + vm_compute correspondence + exhaustive stable-state oracle"
